@@ -67,6 +67,9 @@ func checkC14(w *World, r *Report) {
 	// = reaches Equal_Q through the binder's adapters: whatever those keep between calls is shared by concurrent comparisons
 	capturedStateRule(w, r, e, "C14.adapter-state")
 	allElementsRule(w, r, e, "C14.all-elements")
+	// Equal_Q reads both operands through the sequence accessor and drops its error: sound only as long as the
+	// accessor cannot fail for a list or a vector, whatever it holds
+	accessorTotalRule(w, r, e, "C14.accessor-total")
 	r.rule("C14.go-equality", "Go's == / != on two lisp values is used only where neither can be a comparable struct that carries a source position (a Symbol read from text compares unequal to the same symbol read elsewhere): such values must go through Equal_Q's own case")
 	goEqualityRule(w, r, e, "C14.go-equality")
 	r.rule("C14.symmetric-shape", "every collection case compares the sizes of both operands before comparing elements, and the two sequence cases recurse through the same function element by element")
@@ -530,6 +533,7 @@ func checkC13(w *World, r *Report) {
 		return rule == "C06.marker"
 	})
 	droppedErrorRule(w, r, "C13.errors-surface")
+	accessorTotalRule(w, r, e, "C13.accessor-total")
 	allArgumentsRule(w, r, e, "C13.all-arguments")
 	keyContentRule(w, r, "C13.key-content")
 	loopErrorRule(w, r, "C13.loop-errors", func(fn *ssa.Function) bool {
@@ -1557,6 +1561,9 @@ func checkC19(w *World, r *Report) {
 	// reader joined by the line breaks they were typed with (a comment ends at its line break)
 	r.rule("C19.repl-lines", "the interactive REPL joins the lines it has accumulated with a line break before it hands them to the reader: a comment inside a form typed over several lines ends where it ends in a file")
 	replJoinRule(w, r, "C19.repl-lines")
+	// the wrappers of the delivery routes add levels of nesting ((do ...), load-file's (do ... nil)): a reader that
+	// counts levels against a limit reads a program on one route and refuses it on another
+	readerLimitRule(w, r, "C19.no-limit")
 	// an AST printed and read again (AddPreamble, a program re-read from its printed form) is the same AST: the
 	// printer's form of a keyword is the one text the reader turns back into that keyword
 	r.include("C19.reprint-", "C06.", "a program printed and read again is the same program: a keyword is printed as the keyword character followed by its name with exactly the leading marker stripped, and the marker is one constant everywhere", checkC06, func(rule string) bool {
@@ -1794,6 +1801,11 @@ func checkC19(w *World, r *Report) {
 			}
 			for _, b := range fn.Blocks {
 				for _, in := range b.Instrs {
+					// a method of the scope called by REPL itself: a binding made or changed by the delivery route
+					if ci, isCI := in.(ssa.CallInstruction); isCI && ci.Common().IsInvoke() && strings.HasSuffix(ci.Common().Value.Type().String(), "types.EnvType") {
+						seq = append(seq, "scope."+ci.Common().Method.Name())
+						continue
+					}
 					c, ok := in.(*ssa.Call)
 					if !ok || c.Call.StaticCallee() == nil || !strings.HasPrefix(fnPkgPath(c.Call.StaticCallee()), modPath) {
 						continue
@@ -4055,6 +4067,43 @@ func c20EntryRules(w *World, r *Report, e *Engine, callFn *ssa.Function) {
 	}
 	r.floor("C20.forward", "entry points calling the registration routine", nf, 2)
 
+	// the binding is made whenever the registration routine returns: under its name the function that was handed
+	// in is what the scope holds afterwards, whatever the scope (or a scope around it) held before
+	r.rule("C20.always-bound", "the registration routine binds the adapter (a types.Func handed to the scope's Set) on every path that returns: the call of Set dominates every return, it is not made to depend on what the name is already bound to")
+	nb := 0
+	for _, fn := range w.withPkgHelpers(callFn) {
+		if fn == nil {
+			continue
+		}
+		for _, b := range fn.Blocks {
+			for _, in := range b.Instrs {
+				ci, ok := in.(ssa.CallInstruction)
+				if !ok || !ci.Common().IsInvoke() || ci.Common().Method.Name() != "Set" || len(ci.Common().Args) != 2 {
+					continue
+				}
+				mi, ok := ci.Common().Args[1].(*ssa.MakeInterface)
+				if !ok {
+					continue
+				}
+				if _, name, ok := w.namedStruct(mi.X.Type()); !ok || name != "Func" {
+					continue
+				}
+				nb++
+				always := true
+				for _, rb := range fn.Blocks {
+					if len(rb.Instrs) == 0 || rb == fn.Recover {
+						continue
+					}
+					if _, isRet := rb.Instrs[len(rb.Instrs)-1].(*ssa.Return); isRet && !(b == rb || b.Dominates(rb)) {
+						always = false
+					}
+				}
+				r.check(always, "C20.always-bound", fn, "binding of the adapter", in.Pos(), "made on every returning path", "the adapter is bound on some paths only: a registration can return without the function being reachable under its name (a name already bound in the scope or around it keeps its old value, and calls go to that)")
+			}
+		}
+	}
+	r.floor("C20.always-bound", "bindings of adapters by the registration routine", nb, 1)
+
 	r.rule("C20.context-test", "the test for a leading context parameter is applied to every function that has at least one parameter: the guard in front of In(0) demands NumIn() >= 1 and nothing more")
 	nt := 0
 	var ctBlocks []*ssa.BasicBlock
@@ -5442,7 +5491,42 @@ func builtinRepositionRule(w *World, r *Report, e *Engine, rule string) {
 			}
 			if isRepositioned(ev) {
 				n++
-				r.check(true, rule, fn, "error of a failing builtin call", ret.Pos(), "positioned at the call form (NewLispError(err, form))", "")
+				// ... at the call form itself, not at one of its operands (a fault reported at the condition of an
+				// assert that starts on a later line does not cover the line the failing form starts on)
+				atForm := true
+				carrier := ""
+				if mi, ok := ev.(*ssa.MakeInterface); ok && fn == m.EVAL {
+					if nc, ok := mi.X.(*ssa.Call); ok && nc.Call.StaticCallee() == nle && len(nc.Call.Args) == 2 {
+						// an operand of the form: an element of its list, or a variable that holds nil or such an element
+						fk := m.formKey()
+						var isPart func(v ssa.Value, depth int) bool
+						isPart = func(v ssa.Value, depth int) bool {
+							v = unboxed(v)
+							if depth > 4 || fk == "" {
+								return false
+							}
+							if phi, ok := v.(*ssa.Phi); ok {
+								parts := 0
+								for _, op := range phi.Edges {
+									if isNilConst(op) {
+										continue
+									}
+									if !isPart(op, depth+1) {
+										return false
+									}
+									parts++
+								}
+								return parts > 0
+							}
+							k := e.keyOf(v).String()
+							return k != fk && strings.HasPrefix(k, fk+".") && strings.Contains(k[len(fk):], ".Val[")
+						}
+						if isPart(nc.Call.Args[1], 0) {
+							atForm, carrier = false, describeVal(e, nc.Call.Args[1], 0)
+						}
+					}
+				}
+				r.check(atForm, rule, fn, "error of a failing builtin call", ret.Pos(), "positioned at the call form (NewLispError(err, form))", "the error a builtin returned is positioned at an operand of the call ("+carrier+") instead of the call form: the reported rows need not cover the line the failing form starts on")
 				continue
 			}
 			if fn != m.EVAL {
@@ -6347,4 +6431,33 @@ func builtinErrorMappedRule(w *World, r *Report, rule string) {
 		}
 	}
 	r.floor(rule, "returns handing on a builtin's error", n, 1)
+}
+
+// accessorTotalRule: callers that have established "list or vector" drop the sequence accessor's error (Equal_Q,
+// the shared arms of the sequence builtins). That is sound because the accessor's only failure is the kind of
+// its argument: every return of an error lies where the argument is known to be neither a List nor a Vector.
+func accessorTotalRule(w *World, r *Report, e *Engine, rule string) {
+	r.rule(rule, "the sequence accessor (types.GetSlice) fails for no list and no vector: every return of a non-nil error lies behind the negative outcome of the tests for both kinds - length, content and position of a sequence are no grounds to refuse it (callers that know the kind drop the error and would take the sequence for empty)")
+	gs := w.Fn("types", "GetSlice")
+	if gs == nil || len(gs.Params) == 0 {
+		r.undecided(rule, nil, "types.GetSlice", token.NoPos, "function no longer resolves")
+		return
+	}
+	tsc := w.ByPath[modPath+"/types"].Types.Scope()
+	listT, vecT := tsc.Lookup("List").Type(), tsc.Lookup("Vector").Type()
+	n := 0
+	ei := hasErrorResult(gs)
+	for _, b := range gs.Blocks {
+		if len(b.Instrs) == 0 || b == gs.Recover || ei < 0 {
+			continue
+		}
+		ret, ok := b.Instrs[len(b.Instrs)-1].(*ssa.Return)
+		if !ok || ei >= len(ret.Results) || isNilConst(resolveRet(ret.Results[ei])) {
+			continue
+		}
+		n++
+		okKind := e.notType(gs.Params[0], listT, b) && e.notType(gs.Params[0], vecT, b)
+		r.check(okKind, rule, gs, "error answer of the sequence accessor", ret.Pos(), "only for an argument that is neither a list nor a vector", "the accessor can refuse a list or a vector here: callers that have established the kind drop its error and go on with no elements - two long sequences compare equal, a refused sequence counts as empty")
+	}
+	r.floor(rule, "error answers of the sequence accessor", n, 1)
 }
